@@ -280,4 +280,22 @@ example : (mustFrom { exF with errorOnFSErrors := false } {} [] [] exFTree).map 
     (mustFrom { exF with errorOnFSErrors := false } { openFail := fun p => p = ["a", ".gitignore"] } [] [] exFTree).map (·.path)
       = [["a", "x"], ["a", "y"]] := by decide
 
+/-! ### Disclosed: a failing SIZE stat of a required file is not charged to any extractor
+
+With a size limit set, the engine stats a file lazily when the first extractor requires it.  If that stat fails and errors are
+not fatal (fix b4e342f8 made it non-fatal), the file is skipped with a log line: no attempt is made for ANY extractor, so nothing
+reaches an extractor's status (`mustOne = []` because `sizeOk` is false; `statusSpec = .ok`) — although with `ErrorOnFSErrors` the
+same failure is a traversal fault and fails the scan (`toldFault`, file case).  The property's surfacing clause speaks of "each
+failure to open or parse a required file"; a file that cannot be STAT'ed for the size check is, by the letter, neither — it is
+CONTAINED (clause 2: every other file is extracted as without the fault) but not SURFACED.  `C09_surfaced_benign` /
+`C09_statuses_of_calls` say exactly this: statuses are a function of the ATTEMPTS, and this file has none.  Recorded here so that
+the reading is explicit; reported to the coordinator as a candidate (charging the failure to the extractors that require the file
+would change which statuses a scan reports). -/
+def exSz : Cfg := { nExt := 1, required := fun _ _ => true, extract := fun _ _ => {}, maxFileSize := 100, giMatch := fun _ _ _ _ => false }
+def exSzTree : Node := .dir none [("f", .file .reg 1), ("g", .file .reg 1)]
+theorem C09_size_stat_failure_not_surfaced :
+    (mustRoot exSz { statFail := fun p => p = ["f"] } exSzTree).map (·.path) = [["g"]] ∧
+    statusSpec exSz { statFail := fun p => p = ["f"] } exSzTree 0 = .ok ∧
+    toldFaultScan exSz [(exSzTree, { statFail := fun p => p = ["f"] })] = true := by decide
+
 end Scalibr.Walk
